@@ -40,6 +40,7 @@ Lemma pin_reset_expire : hp_reset_expire_percent = 100.                         
 Lemma pin_marks : (hp_maybe_80, hp_maybe_85, hp_maybe_90, hp_maybe_95) = (80, 85, 90, 95). Proof. reflexivity. Qed.
 Lemma pin_goodbye ttl : hp_ttl_is_goodbye ttl = (ttl =? 0).                      Proof. reflexivity. Qed.
 Lemma pin_goodbye_ttl : hp_goodbye_ttl = 1.                                      Proof. reflexivity. Qed.
+Lemma pin_revived o n : hp_revived o n = ((o <=? 1) && (1 <? n)).                Proof. reflexivity. Qed.
 (* cache flush *)
 Lemma pin_flush_old now c : hp_flush_old_enough now c = (c + 1000 <? now).       Proof. reflexivity. Qed.
 Lemma pin_flush_far now e : hp_flush_far_enough now e = (now + 1000 <? e).       Proof. reflexivity. Qed.
